@@ -5,7 +5,7 @@
 //   -> ok T0=<log> A0=<log> T1=... A1=...
 // ops: c<i> create  d<i> destroy  m<i> malloc+store  r<i> read back  p<i> pointer cell round trip
 //      g<i> register callback  u<i> unregister  f<i> function-pointer cell round trip (example-based lookup)
-//      i<i> invoke (with a callback when one is registered)  a<i> app pointer: register, look up, release
+//      i<i> invoke (with a callback when one is registered)  a<i> app pointer: register, look up, release  l<i> by-name symbol lookups
 #include <cstdint>
 #include <string>
 #ifdef THR_NOOP
@@ -80,9 +80,10 @@ static GLong gfn_cb(GLong x, uint32_t cbrep)
   auto* impl = SbxT::thread_data.sandbox;
   return impl->guest_call_fnptr<GLong, GLong>(cbrep, x + 1);
 }
+static GLong gfn_other(GLong x) { return x + 2; }
 static vsbx::Library& the_lib()
 {
-  static vsbx::Library lib("L", { { "gfn_plain", (void*)&gfn_plain } });
+  static vsbx::Library lib("L", { { "gfn_plain", (void*)&gfn_plain }, { "gfn_other", (void*)&gfn_other } });
   return lib;
 }
 #endif
@@ -183,6 +184,22 @@ static void do_op(Ctx& c, const std::string& op)
         bool ok = in.sb.lookup_app_ptr(t) == &obj;
         ap.unregister();
         add("a" + std::to_string(tok) + (ok ? "" : "!")); break;
+      }
+      case 'l': {
+        // by-name symbol lookup: two names, each resolved by THIS instance and remembered in ITS cache; concurrent lookups in other
+        // threads' instances must not mix the names up (the no-op backend resolves names at compile time: nothing to look up)
+        if (!in.created) { add("-"); break; }
+#ifdef THR_NOOP
+        add("l1");
+#else
+        bool ok = true;
+        for (int k = 0; k < 3; k++) {
+          ok = ok && in.sb.lookup_symbol("gfn_plain") == reinterpret_cast<void*>(&gfn_plain);
+          ok = ok && in.sb.lookup_symbol("gfn_other") == reinterpret_cast<void*>(&gfn_other);
+        }
+        add(ok ? "l1" : "l0");
+#endif
+        break;
       }
       default: add("?");
     }
